@@ -156,6 +156,32 @@ pub fn m2(bases: &[Based], all_pairs: bool) -> Vec<InputFam> {
             });
         }
         if b.bytes.len() > 100_000 {
+            // for the walk-based checks: the structural fields only (rendering a 400 KB sprite 50,000 times is too slow)
+            let fields: Vec<Field> = b.fields.iter().filter(|f| structural(f)).cloned().collect();
+            let fields = Arc::new(fields);
+            let bytes = Arc::new(b.bytes.clone());
+            let mut idx: Vec<(u32, u64)> = Vec::new();
+            for (fi, f) in fields.iter().enumerate() {
+                for v in reduced_values(f) {
+                    idx.push((fi as u32, v));
+                }
+            }
+            let idx = Arc::new(idx);
+            let (f2, b2, i2) = (fields.clone(), bytes.clone(), idx.clone());
+            let (f3, i3, nm) = (fields.clone(), idx.clone(), b.name.clone());
+            out.push(InputFam {
+                name: format!("M2-structural-{}", b.name),
+                what: format!("{}: each of {} size/count/index/offset/enum/string-length fields set to each reduced boundary value", b.name, fields.len()),
+                n: idx.len(),
+                gen: Box::new(move |k| {
+                    let (fi, v) = i2[k];
+                    patch(&b2, &f2[fi as usize], v)
+                }),
+                label: Box::new(move |k| {
+                    let (fi, v) = i3[k];
+                    format!("{} {}={}", nm, f3[fi as usize].label(), v)
+                }),
+            });
             continue;
         }
         let st: Vec<&Field> = b.fields.iter().filter(|f| all_pairs || structural(f)).collect();
